@@ -156,22 +156,16 @@ fn c05_pair_table_delete_step() {
     core::mem::forget(t);
 }
 
-//@ props: C05 C11 C17
-//@ tier: quick
-//@ timeout: 900
-//@ functions: cpc::pair_table::PairTable::unwrapping_get_items
-//@ bounds: table of 8 slots with 0..=6 items, every invariant-satisfying layout
-//@ assumes: linear-probing invariant (table_invariant)
-//@ desc: unwrapping_get_items returns every stored item exactly once (num_items of them)
-#[kani::proof]
-#[kani::unwind(10)]
-fn c05_pair_table_get_items() {
-    let s: [u32; 8] = kani::any();
-    let t = raw_table(3, &s);
+fn get_items_case<const SLOTS: usize>(lg: u8, n: u32) {
+    let s: [u32; SLOTS] = kani::any();
+    let mut t = raw_table(lg, &s);
     kani::assume(table_invariant(&t));
-    kani::assume(t.num_items <= 6);
+    kani::assume(t.num_items == n);
+    // (the count as a literal: the result vector is allocated with this length, and a symbolic-size
+    // allocation is what made the any-count version exhaust 14 GB)
+    t.num_items = n;
     let v = t.unwrapping_get_items();
-    assert!(v.len() == t.num_items as usize);
+    assert!(v.len() == n as usize);
     let x: u32 = kani::any();
     kani::assume(x < (1 << NVB));
     let mut cnt = 0;
@@ -183,6 +177,32 @@ fn c05_pair_table_get_items() {
         i += 1;
     }
     assert!(cnt == if has(&t, x) { 1 } else { 0 }, "item listed a wrong number of times");
-    kani::cover!(t.num_items == 6 && t.slots[0] != u32::MAX && t.slots[7] != u32::MAX);
+    kani::cover!(t.slots[0] != u32::MAX && t.slots[SLOTS - 1] != u32::MAX);
     core::mem::forget((t, v));
 }
+
+macro_rules! get_items {
+    ($name:ident, $slots:expr, $lg:expr, $n:expr) => {
+        #[kani::proof]
+        #[kani::unwind(10)]
+        fn $name() {
+            get_items_case::<$slots>($lg, $n);
+        }
+    };
+}
+
+//@ family: get_items
+//@ props: C05 C11 C17
+//@ tier: thorough
+//@ timeout: 1800
+//@ functions: cpc::pair_table::PairTable::unwrapping_get_items
+//@ unwind: 10
+//@ bounds: table of 4 slots with 1 or 3 items, table of 8 slots with 2, 4 or 6 items (count concrete per instance), every invariant-satisfying layout including clusters that wrap around the end
+//@ assumes: linear-probing invariant (table_invariant)
+//@ desc: unwrapping_get_items returns every stored item exactly once (num_items of them)
+get_items!(c05_pair_table_get_items_4_1, 4, 2, 1); //@ tier: quick
+get_items!(c05_pair_table_get_items_4_3, 4, 2, 3); //@ tier: quick
+get_items!(c05_pair_table_get_items_8_2, 8, 3, 2);
+get_items!(c05_pair_table_get_items_8_4, 8, 3, 4);
+get_items!(c05_pair_table_get_items_8_6, 8, 3, 6);
+//@ endfamily: x
